@@ -167,3 +167,59 @@ def analyse(u, f, fl, accesses, off_buf, off_end):
                 work.append(p)
         out['stores'].append((i, r, m['disp'] or 0, acc.size, problem if problem else found, indexed))
     return out
+
+
+def analyse_stream(u, f, fl, accesses, endoff):
+    """level-0 deflate bodies: the bit buffer lives inside the stream; the output pointer is compared with the m_out_end FIELD
+    (a memory operand).  -> (stores [(insn, reg, disp, width, problem | number of guards)], number of guard sites)"""
+    preds = {}
+    for a in f.addrs:
+        for n in u.succ(f, a):
+            preds.setdefault(n, []).append(a)
+    guards = {}
+    for a in f.addrs:
+        i = u.insns[a]
+        if i.mn == 'cmp' and len(i.ops) == 2 and i.ops[0] in REG64 and is_mem(i.ops[1]):
+            st = fl.IN.get(a)
+            if st is None:
+                continue
+            av = fl.addr(st, parse_mem(i.ops[1]), i)
+            if av[0] == 'P' and av[1] == 'STREAM' and av[2] == (endoff, 0):
+                j = u.insns.get(i.end)
+                if j is not None and j.mn in PASS_TAKEN:
+                    guards[(j.addr, j.target if PASS_TAKEN[j.mn] else j.end)] = (REG64[i.ops[0]][0], i)
+    out = []
+    for acc in accesses:
+        if acc.kind not in ('store', 'rmw') or not (acc.addr[0] == 'P' and acc.addr[1] == 'OUT'):
+            continue
+        m = acc.mem
+        i = acc.insn
+        if m['index'] or m['base'] not in REG64:
+            out.append((i, None, 0, acc.size, 'the address has an index register'))
+            continue
+        r = REG64[m['base']][0]
+        seen = set()
+        work = [i.addr]
+        problem = None
+        ng = 0
+        while work and problem is None:
+            a = work.pop()
+            for p in preds.get(a, []):
+                if (p, a) in seen:
+                    continue
+                seen.add((p, a))
+                g = guards.get((p, a))
+                if g is not None and g[0] == r:
+                    ng += 1
+                    continue
+                pi = u.insns[p]
+                _, defs = regdef.def_use(pi)
+                if r in defs and pi.mn not in ('cmp', 'test'):
+                    problem = 'the pointer is advanced by "%s" (%s) after the last comparison with m_out_end' % (pi.text, u.where(pi, f))
+                    break
+                if p == f.entry:
+                    problem = 'a path from the function entry reaches the store without a comparison with m_out_end'
+                    break
+                work.append(p)
+        out.append((i, r, m['disp'] or 0, acc.size, problem if problem else ng))
+    return out, len(guards)
